@@ -300,6 +300,7 @@ def run(tier, seed, only=None):
     timeout = 20.0 if tier == "quick" else 60.0
     if not only or "aero" in only:
         aero(rep, tier, timeout)
+        aero_mixed(rep, tier, timeout)
     if not only or "geom" in only:
         geometry(rep, tier, timeout)
     if not only or "struct" in only:
@@ -316,3 +317,91 @@ def replay_file(path):
     print("recorded counterexample: %s" % spec.get("what"))
     print("VIOLATION property=%s replay=%s" % (PID, path))
     return 1
+
+
+def aero_mixed(rep, tier, timeout):
+    """Two symmetric surfaces in one model, described with different handedness: (wing left half, tail left half) against
+    (wing left half, tail right half = mirror image of the same tail).  Same physical aircraft, so the influence matrix,
+    right-hand side and forces agree up to the spanwise reversal of the tail's panels."""
+    from symoas import pipe
+
+    cfgs = [("wing L 2x3 + tail L/R 2x2", (2, 3), (2, 2))] + ([("wing L 3x3 + tail L/R 2x3", (3, 3), (2, 3))] if tier == "thorough" else [])
+    for lab, (nxw, nyw), (nxt, nyt) in cfgs:
+        w = K.surface(nxw, nyw, True, name="wing")
+        tL = K.surface(nxt, nyt, True, name="tail")
+        tR = K.surface(nxt, nyt, True, right=True, name="tail")
+        PA = pipe.vlm_states([w, tL])
+        PB = pipe.vlm_states([w, tR])
+        PA.encode(rep)
+        mw = symarray("wing_def_mesh", (nxw, nyw, 3))
+        mt = symarray("tail_def_mesh", (nxt, nyt, 3))
+        for i in range(nxw):
+            mw[i, nyw - 1, 1] = ZERO
+        for i in range(nxt):
+            mt[i, nyt - 1, 1] = ZERO
+        nw, nt = (nxw - 1) * (nyw - 1), (nxt - 1) * (nyt - 1)
+        gam = symarray("circulations", (nw + nt,))
+        gB = np.concatenate([gam[:nw], gam[nw:].reshape(nxt - 1, nyt - 1)[:, ::-1].ravel()])
+        al, v, rho = var("alpha"), var("v"), var("rho")
+        units = {"alpha": "deg", "beta": "deg", "v": "m/s", "rho": "kg/m**3"}
+        common = {"alpha": [al], "beta": [ZERO], "v": [v], "rho": [rho], "wing_def_mesh": mw}
+        nsA, _ = PA.run(dict(common, tail_def_mesh=mt, circulations=gam), units=units)
+        nsB, _ = PB.run(dict(common, tail_def_mesh=mirror_mesh(mt), circulations=gB), units=units)
+        nym = nyt - 1
+
+        def pm(r):
+            if r < nw:
+                return r
+            q = r - nw
+            return nw + (q // nym) * nym + (nym - 1 - q % nym)
+
+        obs = []
+        n = nw + nt
+        for r in range(n):
+            obs.append(oblig.Ob("rhs[%d]" % r, lhs=nsB["rhs"][pm(r)], rhs=nsA["rhs"][r], meta={"family": "right-hand side does not depend on which half of a symmetric surface is modelled", "kind": "rhs"}))
+            for c in range(n):
+                obs.append(oblig.Ob("mtx[%d,%d]" % (r, c), lhs=nsB["mtx"][pm(r), pm(c)], rhs=nsA["mtx"][r, c],
+                                    meta={"family": "influence matrix does not depend on which half of a symmetric surface is modelled", "kind": "mtx"}))
+        obs += idents("wing sec_forces", nsB["wing_sec_forces"], nsA["wing_sec_forces"], meta={"family": "forces on the other surface do not depend on which half of a symmetric surface is modelled", "kind": "F"})
+        FA, FB = nsA["tail_sec_forces"], nsB["tail_sec_forces"]
+        for idx in np.ndindex(nxt - 1, nym, 3):
+            obs.append(oblig.Ob("tail sec_forces%s" % list(idx), lhs=FB[idx[0], nym - 1 - idx[1], idx[2]], rhs=FA[idx] * (-1 if idx[2] == 1 else 1),
+                                meta={"family": "forces on the re-described surface are the mirror image", "kind": "F"}))
+
+        def rp(ob, env, w=w, tL=tL, tR=tR, nxw=nxw, nyw=nyw, nxt=nxt, nyt=nyt):
+            return replay_mixed(w, tL, tR)
+
+        nominal = {}
+        for nm, shp, sym_, off in (("wing", (nxw, nyw), True, 0.0), ("tail", (nxt, nyt), True, 4.0)):
+            mv = K.rect_mesh(shp[0], shp[1], True, jitter=0.25, seed=7)
+            for idx in np.ndindex(*mv.shape):
+                nominal["%s_def_mesh[%s]" % (nm, ",".join(map(str, idx)))] = float(mv[idx]) + (off if idx[2] == 0 else (0.5 * (off > 0) if idx[2] == 2 else 0.0))
+        nominal.update({"circulations[%d]" % i: -0.7 - 0.1 * i for i in range(n)})
+        run_obligations(rep, "aero states, mixed handedness [%s]" % lab, obs, timeout, replay=rp, levels=(1, 2), relate=[], nominal=nominal,
+                        family=lambda ob: "aero states (two symmetric surfaces, one re-described by its other half): " + ob.meta["family"],
+                        fixed={"alpha": 3.0, "v": 10.0, "rho": 1.1})
+
+
+def replay_mixed(w, tL, tR):
+    """both real AeroPoint models on floats (converged): coefficients and forces must agree"""
+    from props import groups
+
+    mw = np.array(K.rect_mesh(w["mesh"].shape[0], w["mesh"].shape[1], True), dtype=float)
+    mw[:, :, 0] += 0.2 * np.abs(mw[:, :, 1])
+    mt = np.array(K.rect_mesh(tL["mesh"].shape[0], tL["mesh"].shape[1], True, span=4.0, chord=1.0), dtype=float) + np.array([6.0, 0.0, 0.8])
+    mtR = mt[:, ::-1, :] * np.array([1.0, -1.0, 1.0])
+    vals = {"alpha": 5.0, "v": 50.0, "rho": 1.0}
+    pa = groups.aeropoint_problem([w, tL], meshes={"wing": mw, "tail": mt}, vals=vals)
+    pb = groups.aeropoint_problem([w, tR], meshes={"wing": mw, "tail": mtR}, vals=vals)
+    pa.run_model()
+    pb.run_model()
+    bad = []
+    for q in ("CL", "CD"):
+        a, b = float(pa.get_val("aero_point_0." + q)[0]), float(pb.get_val("aero_point_0." + q)[0])
+        if model.differs(a, b, 1e-8):
+            bad.append("%s = %.9g with the tail's left half, %.9g with its right half" % (q, a, b))
+    Fa = np.array(pa.get_val("aero_point_0.aero_states.wing_sec_forces"), dtype=float)
+    Fb = np.array(pb.get_val("aero_point_0.aero_states.wing_sec_forces"), dtype=float)
+    if np.abs(Fa - Fb).max() > 1e-8 * max(1.0, np.abs(Fa).max()):
+        bad.append("wing sectional forces differ by %.3g (relative)" % (np.abs(Fa - Fb).max() / np.abs(Fa).max()))
+    return bool(bad), "; ".join(bad) or "both descriptions agree"
